@@ -544,7 +544,7 @@ def correspondence(ctx):
             fs = []
             for d in sysm.doms:
                 sp = sysm.space(d)
-                if misuse and not sysm.blocked and rng.random() < 0.5:
+                if misuse and rng.random() < 0.5:
                     sp = rng.choice(all_spaces)
                 f, k = _random_gf(env, rng, sp, sp, cplx_rhs, all_spaces, True)
                 fs.append(f)
